@@ -32,6 +32,7 @@ type expirySubject interface {
 type storeSubject struct {
 	st  store.Store
 	ids []string
+	blk func() uint64 // the block number of the next keep-alive (a chain head may also go backwards)
 }
 
 func (s *storeSubject) idOf(i int) string      { return s.ids[i] }
@@ -41,11 +42,11 @@ func (s *storeSubject) register(i int) error {
 	return s.st.SetNode(store.Node{ID: store.NodeID(s.ids[i]), LastSeen: time.Now(), IsHost: i != 0, Kind: "geth", URI: "enode://" + s.ids[i] + "@192.0.2.1:30303"})
 }
 func (s *storeSubject) checkin(i int) error {
-	_, err := s.st.UpdateNodePeers(store.NodeID(s.ids[i]), nil, 1)
+	_, err := s.st.UpdateNodePeers(store.NodeID(s.ids[i]), nil, s.blk())
 	return err
 }
 func (s *storeSubject) report(ids []string) ([]string, []string, error) {
-	inv, err := s.st.UpdateNodePeers(store.NodeID(s.ids[0]), ids, 2)
+	inv, err := s.st.UpdateNodePeers(store.NodeID(s.ids[0]), ids, s.blk())
 	if err != nil {
 		return nil, nil, err
 	}
@@ -64,7 +65,8 @@ func (s *storeSubject) report(ids []string) ([]string, []string, error) {
 }
 
 type poolSubject struct {
-	s *session
+	s   *session
+	blk func() uint64
 }
 
 func (p *poolSubject) idOf(i int) string      { return p.s.agents[i].id.nodeID }
@@ -74,11 +76,11 @@ func (p *poolSubject) register(i int) error {
 	return p.s.connect(i, p.s.openConn(i, ""), i != 0, "geth", "")
 }
 func (p *poolSubject) checkin(i int) error {
-	_, err := p.s.update(i, nil, 1, false, false)
+	_, err := p.s.update(i, nil, p.blk(), false, false)
 	return err
 }
 func (p *poolSubject) report(ids []string) ([]string, []string, error) {
-	resp, err := p.s.update(0, ids, 2, len(ids)%2 == 0, len(ids)%3 == 0)
+	resp, err := p.s.update(0, ids, p.blk(), len(ids)%2 == 0, len(ids)%3 == 0)
 	if err != nil {
 		return nil, nil, err
 	}
@@ -102,6 +104,7 @@ func c11Case(rt *rapid.T, rec *vt.Rec) {
 	driver := rapid.SampledFrom([]string{"memory", "badger"}).Draw(rt, "driver")
 	const nPeers = 4 // X is index 0, peers 1..4
 	var sub expirySubject
+	blk := func() uint64 { return uint64(rapid.IntRange(0, 3).Draw(rt, "block")) }
 	if level == "store" {
 		var st store.Store
 		if driver == "memory" {
@@ -109,9 +112,9 @@ func c11Case(rt *rapid.T, rec *vt.Rec) {
 		} else {
 			st = mustOpenBadger(rt, "")
 		}
-		sub = &storeSubject{st: st, ids: []string{"X", "P1", "P2", "P3", "P4"}}
+		sub = &storeSubject{st: st, ids: []string{"X", "P1", "P2", "P3", "P4"}, blk: blk}
 	} else {
-		sub = &poolSubject{s: newSession(rt, sessCfg{Driver: driver, Price: big.NewInt(10), Interval: time.Minute}, nPeers+1)}
+		sub = &poolSubject{s: newSession(rt, sessCfg{Driver: driver, Price: big.NewInt(10), Interval: time.Minute}, nPeers+1), blk: blk}
 	}
 	defer sub.close()
 	name := func(id string) string {
